@@ -466,6 +466,26 @@ func c04(c *an.Ctx) {
 		if !okComp {
 			o.Fail(p.Pos(fn.Pos()), "no addOut(&computation.node) with the computation taken from the context")
 		}
+		// with a rerunner in the context the edge goes to the computation, whatever else holds (a done
+		// context still names its computation): explored with HasRerunner(ctx) fixed to true
+		sim := &an.BoolSim{Fn: fn, Atom: func(v ssa.Value) (bool, bool) {
+			if call, ok := v.(*ssa.Call); ok {
+				if f := call.Call.StaticCallee(); f != nil && f.Name() == "HasRerunner" && an.RelPkg(f) == rx {
+					return true, true
+				}
+			}
+			return false, false
+		}}
+		reached := sim.Run()
+		for _, a := range adds {
+			arg := an.CallOf(a).Args[1]
+			if _, isComp := arg.(*ssa.FieldAddr); isComp {
+				continue
+			}
+			if reached[a.Block()] {
+				o.FailAt(a, "with a rerunner in the context AddDependency can still attach the resource to %s instead of the running computation: the edge to the computation is never created, so a later invalidation of the resource reaches nobody and the rerunner is not run again", an.Short(an.Expr(arg), 40))
+			}
+		}
 	})
 
 	c.Check("R-DOM-ERR", "Cache: per-key lock released (deferred) exactly on the success edge of locker.Lock; locker ref-count under l.mu", 4, func(o *an.O) {
